@@ -408,6 +408,9 @@ func (g *Gen) history() []string {
 			g.emit("copy %d %d %d %d", s.sid, ns.sid, ns.fid, fe)
 			g.emit("dump %d", ns.sid)
 			g.emit("image %d", ns.fid)
+			if fe > 0 {
+				g.emit("opendump %d", ns.fid) // the destination file re-opens to that same state
+			}
 			g.emit("close %d", ns.sid)
 		}},
 		{p.Visit, func() {
